@@ -40,11 +40,13 @@ DEV_NAMES = {
 }
 
 
-def lex(s, cat, dev=0, static_letters=frozenset()):
+def lex(s, cat, dev=0, static_letters=frozenset(), start_state=N, max_tokens=None):
+    """With max_tokens: stop as soon as that many tokens have been produced and return
+    (tokens, rest of the input, state) so that lexing can be resumed under another category table."""
     n = len(s)
     get = cat.get
     out = []
-    state = N
+    state = start_state
     i = 0
     early = dev & D_IGNORED_EARLY
 
@@ -82,6 +84,8 @@ def lex(s, cat, dev=0, static_letters=frozenset()):
 
     try:
         while True:
+            if max_tokens is not None and len(out) >= max_tokens:
+                return out, s[i:], state
             ch, code, i = rd(i)
             if ch is None:
                 break
@@ -154,6 +158,8 @@ def lex(s, cat, dev=0, static_letters=frozenset()):
                 state = M
     except TypeError:
         return 'raises:TypeError'
+    if max_tokens is not None:
+        return out, '', state
     return out
 
 
